@@ -20,7 +20,7 @@ FUNCTIONS = ['functions:OP_MERKLEVAL', 'functions:OP_DUP', 'functions:OP_SHA256'
 BOUNDS = {'quick': {'step': 'OP_MERKLEVAL from a symbolic state: root 32 symbolic bytes, supplied script 1..3 symbolic bytes, sibling item of length '
                             '0, 1, 32, 33 (symbolic), 0..2 items below, symbolic call budget', 'tree_shapes': 'every binary tree shape with 2..4 '
                     'leaves, every leaf; leaf scripts = 2 symbolic bytes each (pairwise different)', 'builders': 'prioritized and balanced builders, '
-                    '1..6 leaves, every leaf', 'pack': 'every shape with 2..4 leaves, leaf scripts `push x<symbolic byte>`'},
+                    '1..6 leaves, every leaf', 'pack': 'every shape with 2..4 leaves, leaf scripts `push x<symbolic byte>`', 'graft': 'a used 2-leaf tree grafted left / right / through make_script_tree_prioritized(leaves, tree), every leaf'},
           'thorough': {'step': 'as quick, script 1..4 bytes, 0..3 items below', 'tree_shapes': 'every shape with 2..6 leaves', 'builders': '1..12 leaves',
                        'pack': 'every shape with 2..5 leaves'}}
 OUTSIDE = ['SHA-256 itself (uninterpreted; equal inputs give equal digests).  That a (script, sibling) pair which was not committed cannot be made to hash '
@@ -35,7 +35,7 @@ EXPLANATION = ('(a) one OP_MERKLEVAL from an arbitrary state: the supplied scrip
                'shape / builder output and every leaf, the generated unlocking script followed by the locking script evaluates exactly that leaf, '
                'once, on an empty stack, evaluates only node locking scripts on the way, and the verdict is the leaf verdict; (c) unpack(pack(tree)) '
                'has the same root and the same unlocking script for every leaf')
-MUST_REACH = ['step_evaluated', 'step_rejected', 'leaf_true', 'leaf_false', 'leaf_raise', 'builder_leaf', 'pack_roundtrip']
+MUST_REACH = ['graft_leaf', 'step_evaluated', 'step_rejected', 'leaf_true', 'leaf_false', 'leaf_raise', 'builder_leaf', 'pack_roundtrip']
 
 
 def _setup():
@@ -250,6 +250,33 @@ def h_tree(c, pkg, n, shape_idx, leaf):
     _check_leaf_run(c, pkg, unlock.bytes, lock.bytes, codes, leaf, _depth(lf), 'tree_leaf')
 
 
+def h_graft(c, pkg, variant, leaf):
+    """a tree that was already used (unlocking scripts generated, as a caller does when it verifies it) is grafted into a larger
+    tree afterwards - through ScriptNode(...) or the documented `tree` parameter of make_script_tree_prioritized; the unlocking
+    scripts generated after the graft must be those of the new tree"""
+    T = pkg.tools
+    if not c.concrete:
+        _setup()
+    codes, scripts = _leaf_scripts(c, pkg, 3)
+    l0, l1 = T.ScriptLeaf.from_script(scripts[0]), T.ScriptLeaf.from_script(scripts[1])
+    sub = T.ScriptNode(l0, l1)
+    # use of the small tree before the graft
+    for x in (l0, l1, sub):
+        x.unlocking_script()
+    sub.locking_script()
+    if variant == 'left':
+        l2 = T.ScriptLeaf.from_script(scripts[2])
+        root = T.ScriptNode(sub, l2)
+    elif variant == 'right':
+        l2 = T.ScriptLeaf.from_script(scripts[2])
+        root = T.ScriptNode(l2, sub)
+    else:
+        root = T.make_script_tree_prioritized([scripts[2]], sub)
+        l2 = root.left if isinstance(root.left, T.ScriptLeaf) else root.right
+    lf = [l0, l1, l2][leaf]
+    _check_leaf_run(c, pkg, lf.unlocking_script().bytes, root.locking_script().bytes, codes, leaf, _depth(lf), 'graft_leaf')
+
+
 def h_builder(c, pkg, builder, n, leaf):
     T = pkg.tools
     if not c.concrete:
@@ -354,6 +381,8 @@ def _sig(v):
 HARNESSES = [
     HarnessSpec('step', h_step, _p_step, replay=auto_replay(h_step), signature=_sig),
     HarnessSpec('tree', h_tree, _p_tree, replay=auto_replay(h_tree), signature=_sig),
+    HarnessSpec('graft', h_graft, [{'variant': v, 'leaf': l} for v in ('left', 'right', 'prioritized') for l in (0, 1, 2)],
+                replay=auto_replay(h_graft), signature=_sig),
     HarnessSpec('builder', h_builder, _p_builder, replay=auto_replay(h_builder), signature=_sig),
     HarnessSpec('pack', h_pack, _p_pack, replay=auto_replay(h_pack), signature=_sig),
 ]
